@@ -231,17 +231,17 @@ Proof.
   assert (Hsz : forall bb, blen bb = blen (cur s) + n ->
              size (set_cur (mkS rem (br + n) mx ns b ex) bb) = size s + n).
   { intros bb Hbb. unfold size, set_cur, cur in *. subst s. cbn [ext b0] in *.
-    destruct ex as [|c t]; cbn [b0 ext sum_len fold_right] in *; fold (sum_len t) in *; lia. }
+    destruct ex as [|c t]; cbn [b0 ext sum_len fold_right] in *; lia. }
   assert (Hac : forall bb, bcap bb = bcap (cur s) ->
              allocated (set_cur (mkS rem (br + n) mx ns b ex) bb) = allocated s).
   { intros bb Hbb. unfold allocated, set_cur, cur in *. subst s. cbn [ext b0] in *.
-    destruct ex as [|c t]; cbn [b0 ext sum_cap fold_right] in *; fold (sum_cap t) in *; lia. }
+    destruct ex as [|c t]; cbn [b0 ext sum_cap fold_right] in *; lia. }
   cbn [maxSize bytesRead].
   destruct ((0 <? mx) && (mx <? br + n)) eqn:Hover.
   - (* over the per-message limit *)
     split; [|discriminate]. unfold post. cbn [maxSize].
     split; [exact Hg|]. split; [reflexivity|]. split; [exact Hal|].
-    left. lia.
+    left. subst s. cbn [maxSize]. lia.
   - set (c' := mkBuf (bcap (cur s)) (blen (cur s) + n) ((rpos r, n) :: bsegs (cur s))).
     assert (Hlinv' : rpos r' <= rtotal r' -> linv (set_cur (mkS rem (br + n) mx ns b ex) c') r').
     { intros _. unfold linv.
